@@ -158,6 +158,12 @@ fn has_nested_group(src: &str) -> bool {
     false
 }
 
+/// attributes whose *name* the macro recognises (it re-applies them to what it generates): on the original item they are
+/// foreign attributes like any other and have to stay where they are (`async_trait` on an impl block is the documented exception)
+fn recognised_name_attr(t: &mut Tape) -> String {
+    (*t.pick(&["#[mockall::automock]", "#[automock]", "#[::mockall::automock]", "#[cfg_attr(test, mockall::automock)]"])).to_string()
+}
+
 pub fn gen_case(t: &mut Tape, leading_unsafe_ok: bool) -> Case {
     let macro_name = e1::MACROS[t.weighted(&[5, 2, 2, 1])].to_string();
     let mode = t.weighted(&[4, 4, 2]);
@@ -165,7 +171,11 @@ pub fn gen_case(t: &mut Tape, leading_unsafe_ok: bool) -> Case {
     match mode {
         0 => {
             let vis = gen::gen_vis(t);
-            let (f, form) = gen::gen_fn(t, "target_fn", vis, &cfg);
+            let (mut f, form) = gen::gen_fn(t, "target_fn", vis, &cfg);
+            if t.chance(1, 8) {
+                let at = t.choose(f.attrs.len() + 1);
+                f.attrs.insert(at, recognised_name_attr(t));
+            }
             let attr = gen::gen_fn_attr(t, "Foo", form == gen::DepsForm::NoDeps);
             let nontrivial = !f.attrs.is_empty() || !f.quals.is_empty() || has_nested_group(&f.body);
             Case { mode: "fn", macro_name, attr, item: f.render(), nontrivial }
@@ -181,7 +191,12 @@ pub fn gen_case(t: &mut Tape, leading_unsafe_ok: bool) -> Case {
                 other |= matches!(it.kind, ModItemKind::Other | ModItemKind::Bodyless | ModItemKind::PrivateFn);
                 items.push(it.src);
             }
-            let attrs = gen::gen_attrs(t, 2).join(" ");
+            let mut attrs = gen::gen_attrs(t, 2);
+            if t.chance(1, 8) {
+                let at = t.choose(attrs.len() + 1);
+                attrs.insert(at, recognised_name_attr(t));
+            }
+            let attrs = attrs.join(" ");
             let vis = gen::gen_vis(t);
             let item = format!("{attrs} {vis} mod the_mod {{ {} }}", items.join("\n"));
             let attr = gen::gen_fn_attr(t, "Foo", no_deps);
@@ -223,6 +238,10 @@ pub fn gen_case(t: &mut Tape, leading_unsafe_ok: bool) -> Case {
             let mut attrs = gen::gen_attrs(t, 2);
             if t.chance(1, 4) {
                 attrs.insert(t.choose(attrs.len() + 1), "#[async_trait::async_trait]".into());
+            }
+            if t.chance(1, 4) {
+                let at = t.choose(attrs.len() + 1);
+                attrs.insert(at, recognised_name_attr(t));
             }
             let uns = if t.chance(1, 6) { "unsafe " } else { "" };
             let trait_path = *t.pick(&["TraitImpl", "a::TraitImpl", "TraitImpl<i32>", "::a::b::TraitImpl"]);
